@@ -121,6 +121,8 @@ def rule_locals(repo, res, sf, reach, exc):
             key_ = "%s:%s" % (fr.qual, f.name)
             if not repo.is_free(m, f.node) and repo.is_pinned_function(m.outermost_function(f.node) or fr.node):
                 res.idiom("C02.1", key_, where, "closed-domain chain of the standard's pseudocode: %s" % short(stmt))
+            elif m.name.endswith("symbol_re") and fr.qual == "parse_expression" and token_chain_exhaustive(repo, f.name):
+                res.ok("C02.1", key_, where, by="closed-domain chain over token types: the branches cover every named group of TOKEN_REGEX")
             else:
                 res.bad("C02.1", key_, where, "local %r may be unbound at `%s` (%s)" % (f.name, short(stmt), f.kind))
         if not fails:
@@ -150,6 +152,50 @@ def rule_locals(repo, res, sf, reach, exc):
                 if repo.resolve(m.name, n.id) is None and not _star_external(repo, m):
                     res.bad("C02.1", "%s:global:%s" % (fr.qual, n.id), where, "name %r is not defined in %s" % (n.id, m.rel))
     res.info["functions_checked_for_locals"] = nfuncs
+
+
+def token_chain_exhaustive(repo, var):
+    """symbol_re.parse_expression binds `var` in an if/elif chain over the token
+    type tokens[-1][0] without else.  The chain is exhaustive iff the types it
+    (and the earlier `continue` branches and the loop condition) handle cover
+    every named group of TOKEN_REGEX, the only source of token types."""
+    import re as _re
+
+    m = repo.mod("symbol_re")
+    tr = m.assigns.get("TOKEN_REGEX")
+    if not tr or not isinstance(tr[-1], ast.Call) or not tr[-1].args:
+        return False
+    lit = tr[-1].args[0]
+    try:
+        text = ast.literal_eval(lit)
+    except Exception:
+        return False
+    groups = set(_re.findall(r"\(\?P<(\w+)>", text))
+    pm = _re.search(r"\(\?P<parenthesis>\[([^\]]*)\]\)", text)
+    paren_chars = set(pm.group(1)) if pm else None
+    fn = m.funcs.get("parse_expression")
+    tk = m.funcs.get("tokenize_regex")
+    if fn is None or tk is None or not groups:
+        return False
+    # token types come only from groupdict() keys
+    if "groupdict" not in norm(tk):
+        return False
+    covered = set()
+    parens = set()
+    for n in ast.walk(fn):
+        if isinstance(n, ast.Compare) and len(n.ops) == 1 and isinstance(n.ops[0], (ast.Eq, ast.NotEq)):
+            l = norm(n.left)
+            c = n.comparators[0]
+            if l == "tokens[-1][0]" and const_str(c) is not None:
+                covered.add(const_str(c))
+            elif l == "tokens[-1][0:2]" and isinstance(c, ast.Tuple) and len(c.elts) == 2 and all(const_str(e) is not None for e in c.elts):
+                if const_str(c.elts[0]) == "parenthesis":
+                    parens.add(const_str(c.elts[1]))
+    if paren_chars is not None and parens >= paren_chars:
+        covered.add("parenthesis")
+    # every handled type must bind `var`, continue, or end the loop: checked by
+    # the definite-assignment pass itself on the non-pruned chain; here only coverage
+    return groups <= covered
 
 
 def _is_comp_var(n):
@@ -188,9 +234,9 @@ def rule_state_keys(repo, res, sf):
     for (rel, fn, key), g in groups.items():
         where = "%s:%s" % (rel, fn)
         inst = "%s:state[%s]" % (fn, key)
-        if g["excepted"]:
+        if g["ok"] and g["excepted"]:
             reason = sf.excepted.get((fn, key), "")
-            res.ok("C02.2", inst, where, by="exceptions table (profile-correlated): " + reason)
+            res.ok("C02.2", inst, where, by="exceptions table (profile-correlated, fragment path only): " + reason + "; other contexts: " + ",".join(sorted(b for b in g["by"] if b != "EXC")))
         elif g["ok"]:
             res.ok("C02.2", inst, where, by=",".join(sorted(g["by"])) + " [%d contexts]" % g["n"])
         else:
